@@ -33,7 +33,7 @@ ASSUMPTIONS = [
 COMPONENTS = {"real": ["Transmitter", "TradingEnv", "TradingEnvXY", "Exchange", "Broker", "State", "Feature", "sklearn transformers"],
               "harness": ["event-value perturbation", "recording observers"], "stub": []}
 PROBE_FLOORS = {"cut_on_first_step": 27, "cut_on_last_step": 30, "cut_in_middle": 80, "extra_events_in_latency_window_after_cut": 17,
-                "fold_boundary_after_cut": 10, "window_straddles_cut": 100, "effective_perturbation": 114, "xy_twin": 12}
+                "fold_boundary_after_cut": 10, "window_straddles_cut": 100, "effective_perturbation": 114, "xy_twin": 12, "judged_on_second_environment_with_smaller_latency": 15, "custom_events_loaded_from_table": 25}
 
 PROFILE = {
     "n_min": 4, "n_max": 14, "n_long": 40, "p_long": 0.08, "c_min": 1, "c_max": 4, "p_bar": 1.0, "extras_max": 12,
@@ -68,6 +68,12 @@ def generate(rng, i):
         fold = None
         steps = gen_epi.episode_steps(env, None)
     script = gen_epi.full_episode_script(rng, env, fold=fold)
+    judged_latency = None
+    if env["latency_us"] > 0 and not gen_epi.auto_disc(env) and rng.random() < 0.25:
+        # a latency sweep: the transmitter first served an environment with the larger latency (built and reset
+        # once), then a new environment with latency 0 is built on it and plays the judged episode
+        script = [dict(script[0]), {"op": "new_env", "env": 0, "latency_us": 0}] + script     # (same seed: same sampled start)
+        judged_latency = 0
     cut = rng.choice(steps)
     r = rng.random()
     if r < 0.1:
@@ -75,7 +81,7 @@ def generate(rng, i):
     elif r < 0.2:
         cut = steps[-1]
     return {"kind": "epi", "envs": [env], "clock0": "1999-01-01T00:00:00", "script": script, "prng": rng.randrange(2 ** 31),
-            "cut": core.iso(cut), "pseed": rng.randrange(2 ** 31)}
+            "cut": core.iso(cut), "pseed": rng.randrange(2 ** 31), "judged_latency_us": judged_latency}
 
 
 def perturb(env, cut_us, pseed):
@@ -110,7 +116,7 @@ def execute(scenario):
     violations, probes, violate, probe = epicheck.mk_violation_sink()
     env = scenario["envs"][0]
     cut = core.parse_t(scenario["cut"])
-    lat_us = env.get("latency_us", 0)
+    lat_us = env.get("latency_us", 0) if scenario.get("judged_latency_us") is None else scenario["judged_latency_us"]
     base = epi.run_scenario(scenario)
     scA = copy.deepcopy(scenario)
     scA["envs"][0], kindsA = perturb(env, us(cut), scenario["pseed"])
@@ -119,7 +125,7 @@ def execute(scenario):
     simA = epi.run_scenario(scA)
     simB = epi.run_scenario(scB)
     h = base.handles[0]
-    ep = h.episodes[0] if h.episodes else None
+    ep = h.episodes[-1] if h.episodes else None      # the judged episode is the last one (an earlier bare reset may precede it)
     trades_before = 0
     effective = False
     cut_class = "none"
@@ -130,7 +136,10 @@ def execute(scenario):
         following = None
         # the timestep each call lands on comes from the scenario (not from the clock the
         # environment reports, which a look-ahead defect could itself move)
-        dmodel = Delivery(env, gen_epi.auto_disc(env))
+        if scenario.get("judged_latency_us") is not None:
+            probe("judged_on_second_environment_with_smaller_latency")
+        spec_j = h.gen_specs[ep.get("gen", 0)]
+        dmodel = Delivery(spec_j, gen_epi.auto_disc(spec_j))
         steps_fold = dmodel.fold_steps(ep["reset"]["fold"])
         i0 = 0
         if env.get("episode_length"):
@@ -167,7 +176,7 @@ def execute(scenario):
                         return canon({"rebalancing": {k: r["rebalancing"][k] for k in ("time", "alloc", "trades", "pre", "interest")}, "books": r["books"]})
                 return None
             eb = exec_of(base, following)
-            callsB = [simB.handles[0].episodes[0]["reset"]] + simB.handles[0].episodes[0]["steps"]
+            callsB = [simB.handles[0].episodes[-1]["reset"]] + simB.handles[0].episodes[-1]["steps"]
             fB = callsB[calls.index(following)] if len(callsB) > calls.index(following) else None
             eo = exec_of(simB, fB) if fB is not None else None
             if eb != eo:
